@@ -59,3 +59,6 @@ func vChdir(dir string)        { panic("gosym intrinsic") } // change the (model
 func vTwoDirs() (string, string) { panic("gosym intrinsic") } // two distinct existing directories
 
 func vUseRealMetaSchemas() { panic("gosym intrinsic") } // decode the embedded meta-schemas for real on this path (default: placeholders)
+
+func vAssumeWhole(c bool)                    { panic("gosym intrinsic") } // assumption kept as one solver conjunct
+func vValidKind(doc []byte, kind string) bool { panic("gosym intrinsic") } // validates against #/definitions/<kind> of schemas/v2/schema.json ("swagger": the root)
